@@ -33,7 +33,7 @@ type Engine struct {
 }
 
 func LoadEngine(repoDir string, patterns []string) (*Engine, error) {
-	cfg := &packages.Config{Mode: packages.LoadAllSyntax, Dir: repoDir, BuildFlags: []string{"-tags=verif"}, Env: append(os.Environ(), "GOFLAGS=-mod=mod", "GOPROXY=off")}
+	cfg := &packages.Config{Mode: packages.LoadAllSyntax | packages.NeedModule, Dir: repoDir, BuildFlags: []string{"-tags=verif"}, Env: append(os.Environ(), "GOFLAGS=-mod=mod", "GOPROXY=off")}
 	pkgs, err := packages.Load(cfg, patterns...)
 	if err != nil {
 		return nil, err
